@@ -142,6 +142,10 @@ func c08Run(rc *sim.RunCtx) {
 		return
 	}
 	rc.Steps = s.TotalLoops()
+	if s.Degraded() {
+		rc.Degraded = true
+		rc.Probe("degraded-schedule(un-modelled blocking met)")
+	}
 	tracers := 0
 	for _, w := range worlds {
 		for _, h := range w.Hist {
